@@ -60,6 +60,26 @@ def check(ctx):
         raise AnalysisError("anchor vanished: key->row dict comprehension in _get_join_indices")
     # ---- the frame the dict enumerates and the key-name list that labels its key columns, inside the builder
     dc = dcs[0]
+    # every answer of the builder comes from probing the lookup: no return avoids it, except when one side has no rows
+    from ..cfg import cfg_of as _cfg05
+    cfg_g = _cfg05(gji)
+    dnode = cfg_g.node_of(dc, gji.module.parent)
+    path_ = cfg_g.path_avoiding(lambda nd: nd is dnode)
+    okp_ = path_ is None
+    tests_ = []
+    if path_ is not None:
+        for a_, b_ in zip(path_, path_[1:]):
+            if a_.kind == "test" and a_.ast is not None:
+                lab_ = next((l for s_, l in a_.succ if s_ is b_), None)
+                tests_.append((lab_, norm(a_.ast)))
+        import re as _re05
+        okp_ = any((l == "T" and _re05.search(r"\.nrow == 0|len\(\w+\) == 0|^not \w+\.nrow$|\.nrow < 1", t)) or
+                   (l == "F" and _re05.search(r"^\w+\.nrow$|\.nrow > 0|\.nrow >= 1", t)) for l, t in tests_)
+    ctx.ob("TS-other", gji, "every return of _get_join_indices follows the key->row lookup", dc, okp_,
+           "no exit avoids the lookup (or only when a side has no rows)" if okp_ else
+           f"a path through _get_join_indices answers `nothing matches` without consulting the lookup (under {tests_[-2:]}): rows whose "
+           f"keys are equal as values (True == 1, a fixed-width and a variable-width string, an object column) are reported unmatched",
+           clause="extended with the columns of the first right row whose key columns all equal its own")
     FR = None
     it = dc.generators[0].iter
     for n in ast.walk(it):
